@@ -84,6 +84,10 @@ def poisson(
 
         if abs(actual_accel - accel) < tol:
             break
+        if slope == slope_min or slope == slope_max:
+            # No floating-point number is left between the bounds:
+            # the tolerance cannot be met.
+            break
         if actual_accel < accel:
             slope_min = slope
         else:
